@@ -1,5 +1,7 @@
 import JxlModel.Proofs.Modular
 import JxlModel.Proofs.Flatten
+import JxlModel.Proofs.PredictorState
+import JxlModel.Proofs.TableOld
 /-!
 # C03 — lossless Modular images decode to exactly the encoded samples
 
@@ -15,10 +17,30 @@ Layers (DESIGN.md §4 C03):
   is the bridge to the wrapping arithmetic the code runs (identity on in-range values);
 * zig-zag sign packing (`C03_unpack_pack`).
 
-* flattened tree = tree for trees without lookup tables (`C03_flatten_eq_eval_partial`).
+* flattened tree = tree, lookup tables included (`C03_flatten_eq_eval`): for property values and
+  decision values in the `i32` range (what the Rust types guarantee) the walk over the flattened
+  array (`get_leaf`: fused two-level nodes and `try_compile_to_table` lookup tables) selects the
+  leaf the tree selects. `C03_flatten_eq_eval_partial` is the table-free corollary (no range
+  hypotheses). The model is the repaired code (/repo f9ead7c): the range ending at `i32::MAX` fills
+  the whole tail of the table. `C03_unrepaired_table_wrong_at_i32max` is the witness of finding F14
+  on the old fill (`Proofs/TableOld.lean`): a tree with a decision value `i32::MAX` whose old table
+  sent the property value `i32::MAX` back to node 0 (the old `get_leaf` did not terminate on it;
+  replay: `corpus/c03/f14_*`);
+* incremental predictor state = neighbours read from the grid (Impl refines Spec): the invariant
+  `PState.Tracks` holds for `PState.reset` and is preserved by `PState.record` along the raster
+  order, for every width ≥ 1, every height and all `Int` samples, with and without the weighted
+  predictor (`C03_pstate_tracks_grid`, `C03_tracks_neighbors`); under it the 16 properties and all
+  predictors computed from the state equal `propsSpec` / `predictSpec` on `neighbors`
+  (`C03_props_impl_eq_spec`); the unchecked accessors of the fast path and the direct indexings of
+  `Properties::record` stay in range (`C03_fast_path_in_range`, `C03_record_reads_in_range`).
+  Hence the decoder model and the reference encoder, which carry the Impl state, equal the grid
+  decoder / encoder that read everything from the samples (`C03_decoder_impl_eq_grid`,
+  `C03_decode_samples_impl_eq_grid`, `C03_encoder_impl_eq_grid`), and the grid pair round-trips
+  (`C03_grid_roundtrip`).
+  The weighted predictor itself has no independent Spec (property 15 and predictor 6 take its
+  output as a parameter on both sides); what is proved is that it is fed the Spec neighbours.
 
-Not proved here (tied by the differential run only, see evidence): lookup-table compilation;
-that the incremental predictor state equals the neighbours read from the grid;
+Not proved here (tied by the differential run only, see evidence):
 palette; the group partition. The statements are kept below as comments where not yet proved.
 -/
 namespace Jxl.Modular
@@ -30,19 +52,155 @@ theorem C03_token_roundtrip (sb : SBits) (leafOf : LeafOf) (prev : List Chan)
     ∃ ps', decodeSamples sb leafOf prev vs.length ps (out.map (·.2) ++ rest) = some (vs, rest, ps') :=
   decode_encode_samples sb leafOf prev vs ps out rest h
 
-/-- Flattened tree = tree (Impl refines Spec): walking the flattened array (`flatten`, fused
-two-level decisions, static pruning on channel / stream / absent previous channels, breadth-first
-index assignment) reaches exactly the leaf the tree itself selects — for every tree none of whose
-subtrees compiles to a lookup table, every channel, stream index, number of previous channels and
-property vector.
-Full statement (not yet proved): the same without the `noTabB` hypothesis, i.e. including
-`try_compile_to_table` (range bookkeeping, 1022 span rule, index fill), for property values in the
-`i32` range. The table path is tied to the code by the differential run (kinds simple-table,
-gradient-table, mixed-table, redundant, wide-span, prevchan-table). -/
+/-- Flattened tree = tree (Impl refines Spec), **lookup tables included**: walking the flattened
+array (`flatten`: static pruning on channel / stream / absent previous channels, fused two-level
+decisions, same-property decision chains compiled to index tables by `try_compile_to_table` with its
+range bookkeeping, 1022 span rule, sort and index fill, breadth-first index assignment; `get_leaf`:
+saturating subtraction and clamping for tables) reaches exactly the leaf the tree itself selects —
+for every tree whose decision values fit `i32`, every channel, stream index, number of previous
+channels and every property vector with values in the `i32` range: exactly what the Rust types
+guarantee. -/
+theorem C03_flatten_eq_eval (c s pc : Nat) (t : Tree) (props : Nat → Int)
+    (hp : ∀ p, i32Min ≤ props p ∧ props p ≤ i32Max) (hv : t.valuesInI32 = true) :
+    getLeaf (flatten c s pc t) props = some (t.evalFor c s pc props) :=
+  flatten_getLeaf_eq_evalFor_full c s pc t props hp hv
+
+/-- Corollary for trees none of whose subtrees compiles to a lookup table: no range hypotheses. -/
 theorem C03_flatten_eq_eval_partial (c s pc : Nat) (t : Tree) (props : Nat → Int)
     (hnt : noTabB c s pc t = true) :
     getLeaf (flatten c s pc t) props = some (t.evalFor c s pc props) :=
-  flatten_getLeaf_eq_evalFor c s pc t props (noTabB_sound c s pc t hnt)
+  flatten_getLeaf_eq_evalFor c s pc t props
+    (AllSub_imp _ _ (fun _ h => Or.inl h) t (noTabB_sound c s pc t hnt))
+
+/-- a chain on property 9 whose root compares with `i32::MAX` (always false: the right child is
+taken); all decision values are legal `i32` values -/
+def exMaxTree : Tree :=
+  .dec 9 i32Max (.leaf { ctx := 0, pred := 0, offset := 0, mul := 1 })
+    (.dec 9 (i32Max - 1) (.leaf { ctx := 1, pred := 0, offset := 0, mul := 1 })
+      (.dec 9 (i32Max - 2) (.leaf { ctx := 2, pred := 0, offset := 0, mul := 1 })
+        (.dec 9 (i32Max - 3) (.leaf { ctx := 3, pred := 0, offset := 0, mul := 1 })
+          (.leaf { ctx := 4, pred := 0, offset := 0, mul := 1 }))))
+
+/-- **Finding F14, about the UNREPAIRED code** (`tryCompileOld` / `flattenOld` in
+`Proofs/TableOld.lean`: the index fill before /repo f9ead7c; not the current model). For `exMaxTree`
+the old fill produced the table `[1, 2, 3, 0, 4]` with base `i32Max - 3`: the range ending at
+`i32::MAX` was written to the last entry only (position `ub - lb + 1`), but with `ub = i32::MAX` the
+value `i32::MAX` reads position `ub - lb = 3`, which still held the initial 0 — the walk returns to
+node 0, the table itself. The model walk runs out of fuel (`none`); the old `FlatMaTree::get_leaf`
+had the same table and looped forever (replayed on the real decoder, `corpus/c03/f14_*`). The tree
+selects leaf 1. -/
+theorem C03_unrepaired_table_wrong_at_i32max :
+    ((flattenOld 0 0 0 exMaxTree)[0]?.map FlatNode.tableIndices) = some [1, 2, 3, 0, 4] ∧
+      tblIdx i32Max (i32Max - 3) 5 = 3 ∧
+      getLeaf (flattenOld 0 0 0 exMaxTree) (fun _ => i32Max) = none ∧
+      exMaxTree.evalFor 0 0 0 (fun _ => i32Max) = { ctx := 1, pred := 0, offset := 0, mul := 1 } := by
+  decide +kernel
+
+/-- The incremental predictor state tracks the grid. For every channel `c` of width ≥ 1 (any
+height, any `Int` samples — `record` never wraps a sample, so no range hypothesis is needed) and
+with or without the weighted predictor (`wp`, and whatever self-correcting prediction `scp` each
+`record` is given): (a) the invariant `PState.Tracks` holds for the reset state at `(0, 0)`;
+(b) `PState.record` with the sample `c.get x y` carries it from `(x, y)` to the raster successor
+(`(x + 1, y)`, or `(0, y + 1)` at the last column, where the row buffers are swapped);
+(c) hence every state reached by recording the first `k` samples of `c` in raster order tracks
+position `(k % c.w, k / c.w)` — in particular the state `PState.run c wp k` the token decoder and
+encoder are in (they pass `ps.scPredict`). -/
+theorem C03_pstate_tracks_grid (c : Chan) (wp : Option Wp) (hw : 1 ≤ c.w) :
+    (PState.reset c.w wp).Tracks c 0 0 ∧
+    (∀ (ps : PState) (x y : Nat) (scp : Option ScPred), ps.Tracks c x y →
+      (ps.record scp (c.get x y)).Tracks c (nextX c.w x) (nextY c.w x y)) ∧
+    (∀ (ps : PState) (k : Nat), PState.ReachedBy c wp ps k → ps.Tracks c (k % c.w) (k / c.w)) ∧
+    (∀ k : Nat, (PState.run c wp k).Tracks c (k % c.w) (k / c.w)) :=
+  ⟨PState.Tracks.init c wp hw, fun _ _ _ scp h => h.record scp, fun _ _ h => h.tracks hw,
+   fun k => (PState.run_reachedBy c wp k).tracks hw⟩
+
+/-- What the invariant says about the observable state: position, the seven neighbours
+(`w`, `n`, `nw` cached; `nn`, `ne`, `nee`, `ww` through the checked accessors that read the two row
+buffers) and the previous gradient equal the Spec's values read from the grid. -/
+theorem C03_tracks_neighbors (ps : PState) (c : Chan) (x y : Nat) (h : ps.Tracks c x y) :
+    ps.width = c.w ∧ ps.x = x ∧ ps.y = y ∧
+    ps.w = (neighbors c x y).w ∧ ps.n = (neighbors c x y).n ∧ ps.nw = (neighbors c x y).nw ∧
+    ps.nn = (neighbors c x y).nn ∧ ps.ne = (neighbors c x y).ne ∧
+    ps.nee = (neighbors c x y).nee ∧ ps.ww = (neighbors c x y).ww ∧
+    ps.prevGrad = (if x > 0 then gradProp c (x - 1) y else 0) :=
+  ⟨h.hwidth, h.hx, h.hy, h.hw, h.hn, h.hnw, h.nn_eq, h.ne_eq, h.nee_eq, h.ww_eq, h.hgrad⟩
+
+/-- Under the invariant the Impl property vector is the Spec one (all 16 entries: 0..14 from the
+grid; entry 15 is the weighted predictor's `max_error`, which the Spec takes as a parameter — the
+weighted predictor has no second, independent definition), every predictor (0..13, and any other
+number, which both sides treat as 13) gives the Spec prediction, and the weighted predictor is run
+on the Spec neighbours `N, NW, NE, W, NN`. -/
+theorem C03_props_impl_eq_spec (ps : PState) (c : Chan) (x y : Nat) (h : ps.Tracks c x y)
+    (scp : Option ScPred) :
+    ps.props scp = propsSpec c x y ((scp.map (·.maxError)).getD 0) ∧
+    (∀ pred : Nat, predictImpl pred ps scp
+      = predictSpec pred (neighbors c x y) ((scp.map (·.prediction)).getD 0)) ∧
+    ps.scPredict = ps.sc.map (fun sc =>
+      sc.predict (neighbors c x y).n (neighbors c x y).nw (neighbors c x y).ne
+        (neighbors c x y).w (neighbors c x y).nn) :=
+  ⟨h.props_eq scp, fun pred => h.predict_eq pred scp, h.scPredict_eq⟩
+
+/-- The fast path never reads out of range: for `2 ≤ x`, `x + 2 < width`, `y ≥ 2` — the positions
+at which `image.rs` uses `properties::<false>` / `decode_one::<_, false>` — the unchecked
+accessors `nn/ne/nee/ww::<false>` index inside the row buffers and return the Spec neighbours. -/
+theorem C03_fast_path_in_range (ps : PState) (c : Chan) (x y : Nat) (h : ps.Tracks c x y)
+    (hx2 : 2 ≤ x) (hxr : x + 2 < c.w) (hy2 : 2 ≤ y) :
+    ps.nnF = some (neighbors c x y).nn ∧ ps.neF = some (neighbors c x y).ne ∧
+    ps.neeF = some (neighbors c x y).nee ∧ ps.wwF = some (neighbors c x y).ww :=
+  h.fast_eq hx2 hxr hy2
+
+/-- The direct indexings of the Rust that the model writes with `getD` are in range under the
+invariant: `curr_row[x - 2]` in `ww::<true>`, `prev_row[x + 1]` in `Properties::record` (not at
+the last column, `prev_row` non-empty) and `prev_row[0]` after the swap at a row end. -/
+theorem C03_record_reads_in_range (ps : PState) (c : Chan) (x y : Nat) (h : ps.Tracks c x y) :
+    (2 ≤ ps.x → ps.x - 2 < ps.currRow.size) ∧
+    (ps.x + 1 < ps.width → ps.prevRow.isEmpty = false → ps.x + 1 < ps.prevRow.size) ∧
+    (∀ v : Int, 0 < (if ps.x < ps.currRow.size then ps.currRow.setIfInBounds ps.x v
+                else ps.currRow.push v).size) :=
+  h.record_reads_in_range
+
+/-- The decoder model (Impl predictor state) is the grid decoder (Spec): decoding a channel of
+width ≥ 1 with the incremental `PState` gives, for every tree, token list, previous channels and
+weighted-predictor parameters, exactly the result of `decodeChannelGrid`, which keeps no predictor
+state except the weighted predictor's and at each sample reads position, neighbours, properties
+and prediction (`neighbors`, `propsSpec`, `predictSpec`) from the samples decoded so far.
+(`decodeChannels` calls `decodeChannel` only for `info.w ≠ 0`.) -/
+theorem C03_decoder_impl_eq_grid (sb : SBits) (tree : Tree) (wp : Wp) (chanIdx stream : Nat)
+    (info : ChanInfo) (prevSame : List Chan) (tokens : List Nat) (hw : 1 ≤ info.w) :
+    decodeChannel sb tree wp chanIdx stream info prevSame tokens
+      = decodeChannelGrid sb tree wp chanIdx stream info prevSame tokens :=
+  decodeChannel_eq_decodeChannelGrid sb tree wp chanIdx stream info prevSame tokens hw
+
+/-- The same at the level of sample runs, for every leaf-selection function and starting anywhere:
+from a state that tracks the `acc.size` samples decoded so far, `decodeSamples` and `decodeGrid`
+produce the same samples, the same unread tokens and the same weighted-predictor state. -/
+theorem C03_decode_samples_impl_eq_grid (sb : SBits) (leafOf : LeafOf) (prev : List Chan)
+    (w h : Nat) (hw : 1 ≤ w) (n : Nat) (acc : Array Int) (ps : PState) (toks : List Nat)
+    (ht : ps.Tracks (partialChan w h acc) (acc.size % w) (acc.size / w)) :
+    (decodeSamples sb leafOf prev n ps toks).map (fun r => (acc ++ r.1.toArray, r.2.1, r.2.2.sc))
+      = decodeGrid sb leafOf prev w h n acc ps.sc toks :=
+  decodeSamples_eq_decodeGrid sb leafOf prev w h hw n acc ps toks ht
+
+/-- The reference encoder with the Impl predictor state is the grid encoder (Spec) on every
+well-formed channel of width ≥ 1. -/
+theorem C03_encoder_impl_eq_grid (sb : SBits) (tree : Tree) (wp : Wp) (chanIdx stream : Nat)
+    (c : Chan) (prevSame : List Chan) (hw : 1 ≤ c.w) (hsz : c.data.size = c.w * c.h) :
+    encodeChannel sb tree wp chanIdx stream c prevSame
+      = encodeGrid sb (specLeafOf tree chanIdx stream prevSame.length) prevSame c (c.w * c.h) 0
+          ((if tree.usesProp 15 || tree.usesPred 6 then some wp else none).map
+            (ScState.new c.w)) :=
+  encodeChannel_eq_encodeGrid sb tree wp chanIdx stream c prevSame hw hsz
+
+/-- Round trip stated on the Spec side only: whatever the grid encoder emits for a well-formed
+channel, the grid decoder turns back into exactly the channel's samples, consuming exactly those
+tokens — for every leaf-selection function, previous channels, weighted-predictor parameters. -/
+theorem C03_grid_roundtrip (sb : SBits) (leafOf : LeafOf) (prev : List Chan) (c : Chan)
+    (wpo : Option Wp) (out : List (Nat × Nat)) (rest : List Nat)
+    (hw : 1 ≤ c.w) (hsz : c.data.size = c.w * c.h)
+    (h : encodeGrid sb leafOf prev c (c.w * c.h) 0 (wpo.map (ScState.new c.w)) = some out) :
+    ∃ sc', decodeGrid sb leafOf prev c.w c.h (c.w * c.h) #[] (wpo.map (ScState.new c.w))
+      (out.map (·.2) ++ rest) = some (c.data, rest, sc') :=
+  grid_roundtrip sb leafOf prev c wpo out rest hw hsz h
 
 /-- A token the encoder chose reproduces the sample at that leaf, whatever the prediction. -/
 theorem C03_residual_sound (sb : SBits) (leaf : Leaf) (pred v : Int) (tok : Nat)
@@ -78,7 +236,106 @@ def exTree : Tree :=
 
 def exChan : Chan := { w := 4, h := 3, data := #[5, 9, 200, 7, 0, 255, 13, 13, 90, 91, 92, 1] }
 
+/-! Non-vacuity of the predictor-state theorems on the 4x3 channel: the hypotheses are
+satisfiable (a state at the fast-path-free interior `(2, 1)`, one at the last column, one on the
+third row, with and without the weighted predictor), and the conclusions are checked by
+evaluation on the same states. -/
+example : (PState.run exChan (some {}) 6).Tracks exChan 2 1 :=
+  (C03_pstate_tracks_grid exChan (some {}) (by decide)).2.2.2 6
+example : (PState.run exChan none 11).Tracks exChan 3 2 :=
+  (C03_pstate_tracks_grid exChan none (by decide)).2.2.2 11
+example : PState.ReachedBy exChan none
+    (((PState.reset 4 none).record none 5).record (some default) 9) 2 :=
+  (PState.ReachedBy.init.step none).step (some default)
+/-- what the checks below look at: position, the seven neighbours, the previous gradient -/
+def PState.obs (ps : PState) : Nat × Nat × List Int :=
+  (ps.x, ps.y, [ps.w, ps.n, ps.nw, ps.nn, ps.ne, ps.nee, ps.ww, ps.prevGrad])
+def Nb.obs (nb : Nb) : List Int := [nb.w, nb.n, nb.nw, nb.nn, nb.ne, nb.nee, nb.ww]
+def PState.obsF (ps : PState) : List (Option Int) := [ps.nnF, ps.neF, ps.neeF, ps.wwF]
+example : (PState.run exChan none 6).obs = (2, 1, [255, 200, 9, 200, 7, 7, 0, 4]) := by
+  decide +kernel
+example : (neighbors exChan 2 1).obs = [255, 200, 9, 200, 7, 7, 0] := by decide +kernel
+example : (PState.run exChan (some {}) 10).props (PState.run exChan (some {}) 10).scPredict
+    = [0, 0, 2, 2, 13, 91, 13, 91, -254, -151, -164, 242, 0, -187, 1, 1514] := by decide +kernel
+example : propsSpec exChan 2 2 1514
+    = [0, 0, 2, 2, 13, 91, 13, 91, -254, -151, -164, 242, 0, -187, 1, 1514] := by decide +kernel
+/-- the fast path needs width ≥ 5: a 5x3 channel, position `(2, 2)` -/
+def exChan5 : Chan :=
+  { w := 5, h := 3, data := #[5, 9, 200, 7, 1, 0, 255, 13, 13, 2, 90, 91, 92, 1, 3] }
+example : (PState.run exChan5 none 12).Tracks exChan5 2 2 ∧ 2 ≤ 2 ∧ 2 + 2 < exChan5.w ∧ 2 ≤ 2 :=
+  ⟨(C03_pstate_tracks_grid exChan5 none (by decide)).2.2.2 12, by decide, by decide, by decide⟩
+example : (PState.run exChan5 none 12).obsF = [some 200, some 13, some 2, some 90] := by
+  decide +kernel
+example : (neighbors exChan5 2 2).obs = [91, 13, 255, 200, 13, 2, 90] := by decide +kernel
+
+/-! Non-vacuity of the grid encoder / decoder theorems: the 4x3 channel with the two-level tree
+(gradient, weighted and predictor 13 leaves) is well-formed, the grid encoder accepts it, and the
+grid decoder returns its samples. -/
+example : 1 ≤ exChan.w ∧ exChan.data.size = exChan.w * exChan.h := by decide
+example : (encodeGrid 32 (specLeafOf exTree 0 0 0) [] exChan 12 0
+    ((some ({} : Wp)).map (ScState.new 4))).isSome = true := by decide +kernel
+example :
+    (match encodeGrid 32 (specLeafOf exTree 0 0 0) [] exChan 12 0 ((some ({} : Wp)).map (ScState.new 4)) with
+     | some toks => (decodeChannelGrid 32 exTree {} 0 0 { w := 4, h := 3, hshift := 0, vshift := 0 } []
+          (toks.map (·.2))).map (·.1.data.toList)
+     | none => none) = some exChan.data.toList := by decide +kernel
+example : (PState.run exChan (some {}) 5).Tracks
+    (partialChan 4 3 #[5, 9, 200, 7, 0]) ((#[5, 9, 200, 7, 0] : Array Int).size % 4)
+    ((#[5, 9, 200, 7, 0] : Array Int).size / 4) :=
+  ((C03_pstate_tracks_grid exChan (some {}) (by decide)).2.2.2 5).congr rfl (by
+    intro i j hi hb
+    have hi' : i < 4 := hi
+    have hb' : j < 1 ∨ (j = 1 ∧ i < 1) := hb
+    have : (i = 0 ∨ i = 1 ∨ i = 2 ∨ i = 3) ∧ (j = 0 ∨ j = 1) := by omega
+    rcases this with ⟨rfl | rfl | rfl | rfl, rfl | rfl⟩ <;> first | rfl | omega)
+
 example : noTabB 0 0 0 exTree = true := by decide +kernel
+
+/-! Non-vacuity of `C03_flatten_eq_eval`: a chain of five decisions on property 9 (and a nested
+decision on property 3) compiles to a lookup table; the hypotheses hold and the walk over the
+flattened array is evaluated. -/
+def exTabTree : Tree :=
+  .dec 9 10 (.leaf { ctx := 0, pred := 5, offset := 0, mul := 1 })
+    (.dec 9 5 (.leaf { ctx := 1, pred := 5, offset := 0, mul := 1 })
+      (.dec 9 0 (.dec 3 2 (.leaf { ctx := 2, pred := 5, offset := 0, mul := 1 })
+                          (.leaf { ctx := 6, pred := 4, offset := 0, mul := 1 }))
+        (.dec 9 (-5) (.leaf { ctx := 3, pred := 5, offset := 0, mul := 1 })
+          (.dec 9 (-10) (.leaf { ctx := 4, pred := 5, offset := 0, mul := 1 })
+                        (.leaf { ctx := 5, pred := 5, offset := 0, mul := 1 })))))
+
+def isTableNode : FlatNode → Bool
+  | .table _ _ _ => true
+  | _ => false
+
+example : exTabTree.valuesInI32 = true := by decide +kernel
+example : noTabB 0 0 0 exTabTree = false := by decide +kernel
+example : (flatten 0 0 0 exTabTree)[0]?.map isTableNode = some true := by decide +kernel
+example : getLeaf (flatten 0 0 0 exTabTree) (fun k => if k = 9 then 3 else 7)
+    = some { ctx := 2, pred := 5, offset := 0, mul := 1 } := by decide +kernel
+example : getLeaf (flatten 0 0 0 exTabTree) (fun k => if k = 9 then 3 else 1)
+    = some { ctx := 6, pred := 4, offset := 0, mul := 1 } := by decide +kernel
+example : getLeaf (flatten 0 0 0 exTabTree) (fun k => if k = 9 then -2 else 1)
+    = some { ctx := 3, pred := 5, offset := 0, mul := 1 } := by decide +kernel
+example : getLeaf (flatten 0 0 0 exTabTree) (fun _ => i32Min)
+    = some { ctx := 5, pred := 5, offset := 0, mul := 1 } := by decide +kernel
+example : getLeaf (flatten 0 0 0 exTabTree) (fun _ => i32Max)
+    = some { ctx := 0, pred := 5, offset := 0, mul := 1 } := by decide +kernel
+/-! The repaired table for a root value `i32::MAX` (the F14 witness tree): `[1, 2, 3, 4, 4]`; the
+hypotheses of `C03_flatten_eq_eval` hold and the walk gives the tree's leaf. -/
+example : exMaxTree.valuesInI32 = true := by decide +kernel
+example : ((flatten 0 0 0 exMaxTree)[0]?.map FlatNode.tableIndices) = some [1, 2, 3, 4, 4] := by
+  decide +kernel
+example : getLeaf (flatten 0 0 0 exMaxTree) (fun _ => i32Max)
+    = some (exMaxTree.evalFor 0 0 0 (fun _ => i32Max)) := by decide +kernel
+example : getLeaf (flatten 0 0 0 exMaxTree) (fun _ => i32Max)
+    = some { ctx := 1, pred := 0, offset := 0, mul := 1 } := by decide +kernel
+example : getLeaf (flatten 0 0 0 exMaxTree) (fun _ => i32Max - 1)
+    = some { ctx := 2, pred := 0, offset := 0, mul := 1 } := by decide +kernel
+example : getLeaf (flatten 0 0 0 exMaxTree) (fun _ => i32Min)
+    = some { ctx := 4, pred := 0, offset := 0, mul := 1 } := by decide +kernel
+/-- the old and the repaired flattening agree away from `i32::MAX` root values -/
+example : getLeaf (flattenOld 0 0 0 exTabTree) (fun k => if k = 9 then 3 else 1)
+    = getLeaf (flatten 0 0 0 exTabTree) (fun k => if k = 9 then 3 else 1) := by decide +kernel
 
 example : (encodeChannel 32 exTree {} 0 0 exChan []).isSome = true := by decide +kernel
 
